@@ -44,11 +44,11 @@ def collect(progs, settings_of):
     return entries, results
 
 
-def judge(entries, name, chunks=8, workers_per=2, timeout=1700):
+def judge(entries, name, chunks=8, workers_per=2, timeout=1700, per_chunk=100):
     """Runs spec/Compile.tla.  Returns (verdicts: idx -> [clauses, initclass, minv], results, errors)."""
     if not entries:
         return {}, [], []
-    chunks = max(1, min(chunks, (len(entries) + 99) // 100))
+    chunks = max(1, min(chunks, (len(entries) + per_chunk - 1) // per_chunk))
     size = (len(entries) + chunks - 1) // chunks
     parts = [(ci, entries[ci * size:(ci + 1) * size]) for ci in range(chunks) if entries[ci * size:(ci + 1) * size]]
     wd = tlc.workdir("compile_" + name)
